@@ -41,8 +41,9 @@ package internal
 // end after a complete prefix becomes an unexpected end; otherwise the message is exactly
 // the next size bytes.
 //@ func (*timeoutDelimitedReader).readDelimitedMessageRaw$1
-//@   requires r != nil && r.in != nil && !held[r.mu] && rdPos[r.in] >= 0 && readDone != nil
-//@   modifies rdPos, held, timeoutDelimitedReader.bytesRead, timeoutDelimitedReader.prefixDone, timeoutDelimitedReader.bytesExpecting, *error, *[]byte
+//@   requires r != nil && r.in != nil && !held[r.mu] && rdPos[r.in] >= 0 && readDone != nil && !chanClosed[readDone]
+//@   modifies chanClosed, rdPos, held, timeoutDelimitedReader.bytesRead, timeoutDelimitedReader.prefixDone, timeoutDelimitedReader.bytesExpecting, *error, *[]byte
+//@   ensures @signalled chanClosed[readDone] //# completion is signalled exactly once (a second close would panic)
 //@   ensures @message readErr == nil ==> rdPos[r.in] == old(rdPos[r.in]) + 4 + be32At(rdStream[r.in], old(rdPos[r.in])) &&
 //@       len(msgBytes) == be32At(rdStream[r.in], old(rdPos[r.in])) && be32At(rdStream[r.in], old(rdPos[r.in])) <= r.maxSize &&
 //@       (forall i int :: 0 <= i && i < len(msgBytes) ==> msgBytes[i] == rdStream[r.in][old(rdPos[r.in]) + 4 + i])
